@@ -156,6 +156,14 @@ def rand_q(rng, depth, pool_for, dims, want=None):
     if depth == 0:
         if want is None:
             return rand_lit(rng)
+        if rng.random() < 0.25:
+            # the same dimension written as a compound: U * V / V' with V, V' two spellings of one dimension
+            d2 = rng.choice(dims)
+            e = rng.choice([1, 1, 2, 3])
+            a, b = rng.choice(pool_for[d2]), rng.choice(pool_for[d2])
+            if rng.random() < 0.5:
+                return ("tag", rand_lit(rng), ([(rng.choice(pool_for[want]), 1), (a, e)], [(b, e)]))
+            return ("tag", rand_lit(rng), ([(rng.choice(pool_for[want]), 1), (a, e), (b, -e)], []))
         return ("tag", rand_lit(rng), ([(rng.choice(pool_for[want]), 1)], []))
     r = rng.random()
     if want is None:
@@ -316,6 +324,19 @@ def build_cases(ctx, n_rand, rational_only):
             trees.append(("conv", ("tag", L(3), s), s))
             trees.append(("bin", "QAdd", ("tag", L(3), s), ("tag", L(4), s)))
             trees.append(("bin", "QAdd", ("tag", L(3), s), Q(1, ulen[0])))
+    # compound signatures over units with non-trivial factors and every small exponent, on either side
+    # of `|`, converted to another spelling of the same dimension (factor composition, C04)
+    alts = [n for n in ("km", "cm", "mm", "kilometre") if n in units] or ulen[:2]
+    talts = [n for n in ("min", "h", "ms", "hour", "d") if n in units] or utime[:2]
+    for e1 in (-3, -2, -1, 1, 2, 3):
+        for e2 in (-2, -1, 1, 2):
+            for (ua, ta) in [(alts[0], talts[0]), (alts[-1], talts[-1])]:
+                s1 = ([(ua, e1)], [(ta, e2)])
+                s2 = ([(ulen[0], e1), (utime[0], -e2)], [])
+                s3 = ([(ua, e1), (ta, -e2)], [])
+                trees.append(("conv", ("tag", L(7), s1), s2))
+                trees.append(("conv", ("tag", L(7), s3), s1))
+                trees.append(("bin", "QAdd", ("tag", L(1), s1), ("tag", L(1), s2)))
     # near-miss dimensions: same units, exponents differing by one (accepted iff equal)
     for a in range(-3, 4):
         for b in range(-3, 4):
